@@ -2057,6 +2057,9 @@ void sexp_string_utf8_set (sexp ctx, sexp str, sexp index, sexp ch) {
       memcpy(q, sexp_string_data(str), i);
       memcpy(q+i+new_len, p+old_len, len-i-new_len+1);
       sexp_string_bytes(str) = b;
+#if ! SEXP_USE_PACKED_STRINGS
+      sexp_string_offset(str) = 0;  /* the new store holds exactly this string */
+#endif
       p = q + i;
     }
     sexp_string_size(str) += new_len - old_len;
